@@ -156,6 +156,10 @@ static void do_ser(const vt_t* t, slot_t* s, uint32_t cap_arg)
     if (cap_arg == 0xFFFFFFFFu) { cap = t->bufsize; }
     if (cap_arg == 0xFFFFFFFEu) { cap = t->bufsize + 1; }
     if (cap_arg == 0xFFFFFFFDu) { cap = t->bufsize ? t->bufsize - 1 : 0; }
+    if (cap_arg >= 0xFFFFFFF0u && cap_arg <= 0xFFFFFFFCu) { /* bufsize - 2 ... bufsize - 14 */
+        const unsigned less = 0xFFFFFFFEu - cap_arg;
+        cap = (t->bufsize > less) ? t->bufsize - less : 0;
+    }
     uint8_t* buf  = alloc_exact(cap); /* exact size: red zones at both ends; for capacity 0 not a single usable byte */
     size_t   size = cap;
     const int rc  = (buf == NULL) ? -2 : t->ser(s->obj, buf, &size);
@@ -214,6 +218,9 @@ int main(int argc, char** argv)
         case 1: t->init(s->obj); s->state = ST_VALID; break;
         case 2: do_des(t, s, bytes, len, (int) (arg & 1u)); break;
         case 3: do_ser(t, s, arg); break;
+        case 12: /* sweep: the object as it is, serialised into a buffer of every size from 0 to one more than advertised */
+            for (unsigned c12 = 0; c12 <= (unsigned) t->bufsize + 1u && c12 < 4096u; ++c12) { do_ser(t, s, c12); }
+            break;
         case 4: memset(s->obj, (int) (arg & 0xFFu), t->obj_size); s->state = ST_INDET; break; /* poison: only ever decoded into */
         case 5:
             if (t->n_corrupt > 0 && s->state == ST_VALID)
